@@ -11,6 +11,7 @@ import z3
 
 from .sym import SStr, Unsupported, mk_str, str_term
 
+MULTI_SPACE = ' +'
 OPERATORS = '^(?P<oper>(=|<>|<=?|>=?))?(?P<value>.*)$'
 STAR = r'\*(?<!~)'
 QMARK = r'\?(?<!~)'
@@ -32,7 +33,33 @@ class SRegex:
         if name == 'sub' and self.pattern in (STAR, QMARK):
             ch = '*' if self.pattern == STAR else '?'
             return Builtin('re.sub', lambda i, a, k, n: sub_char(i, ch, a[0], a[1], n))
+        if name == 'sub' and self.pattern == MULTI_SPACE:
+            return Builtin('re.sub', lambda i, a, k, n: collapse_spaces(i, a[0], a[1], n))
         raise Unsupported(f're pattern {self.pattern!r}.{name}', node)
+
+
+def collapse_spaces(interp, repl, s, node):
+    """re.compile(' +').sub(' ', s): every run of spaces becomes one space (A-RE)."""
+    if repl != ' ':
+        raise Unsupported("' +'.sub with another replacement", node)
+    if isinstance(s, str):
+        import re
+        return re.sub(' +', ' ', s)
+    interp.world.trusted.add("A-RE: re.compile(' +').sub(' ', s) = s with every run of spaces collapsed to one: no two "
+                             "adjacent spaces remain, text without adjacent spaces is unchanged, it is no longer than s, "
+                             "and it starts / ends with a space exactly when s does")
+    from .builtins_model import uf, S
+    t = str_term(s)
+    r = uf('collapse_spaces', S, S)(t)
+    two = z3.StringVal('  ')
+    sp = z3.StringVal(' ')
+    interp.ex.add_axiom(z3.And(z3.Not(z3.Contains(r, two)),
+                               z3.Implies(z3.Not(z3.Contains(t, two)), r == t),
+                               z3.Length(r) <= z3.Length(t),
+                               z3.PrefixOf(sp, r) == z3.PrefixOf(sp, t),
+                               z3.SuffixOf(sp, r) == z3.SuffixOf(sp, t),
+                               (z3.Length(r) == 0) == (z3.Length(t) == 0)))
+    return mk_str(r)
 
 
 class SMatch:
